@@ -76,7 +76,7 @@ def scratch_root():
 
 @contextlib.contextmanager
 def scratch_dir():
-    path = tempfile.mkdtemp(prefix='vfw-', dir=scratch_root())
+    path = tempfile.mkdtemp(prefix=ambient.scratch_prefix(), dir=scratch_root())
     try:
         yield path
     finally:
